@@ -323,6 +323,8 @@ def run_red(case):
     eps = Fraction(1, 10 ** 9)
     alpha = Fraction(1, 2 ** case["w"])
     lo = hi = F(0)      # the reference average is an interval: same-instant queue-length ambiguity widens it
+    lo_f = hi_f = 0.0   # the statement's recurrence evaluated in floating point: where it is exact, no dead band is needed
+    af = 2.0 ** (-case["w"])
     u = F(case["u"])
     held = []           # accepted-not-exited records
     oi = 0
@@ -345,7 +347,12 @@ def run_red(case):
             q_hi = len(held) if F(held[0].now) == t or (oi > 0 and F(outs[oi - 1].now) == t) else len(held) - 1
         lo = lo * (1 - alpha) + F(q_lo) * alpha
         hi = hi * (1 - alpha) + F(q_hi) * alpha
-        decisions = red_decision(lo, u, case, eps, regions) | red_decision(hi, u, case, eps, regions)
+        lo_f = lo_f * (1 - af) + q_lo * af
+        hi_f = hi_f * (1 - af) + q_hi * af
+        band = 0 if (F(lo_f) == lo and F(hi_f) == hi) else eps
+        if band == 0 and (lo == F(case["qlimit"]) or lo == F(case["min_th"]) or lo == F(case["max_th"])):
+            regions.add("average exactly on a threshold")
+        decisions = red_decision(lo, u, case, band, regions) | red_decision(hi, u, case, band, regions)
         if lo != hi:
             amb += 1
         if dropped not in decisions:
@@ -370,7 +377,8 @@ def red_decision(a, u, case, eps, regions):
     """set of admissible outcomes {True=dropped, False=accepted} for average a and constant draw u"""
     mn, mx, ql, mp = F(case["min_th"]), F(case["max_th"]), F(case["qlimit"]), F(case["max_p"])
     out = set()
-    near = lambda x, y: abs(x - y) <= eps
+    near = lambda x, y: eps > 0 and abs(x - y) <= eps        # thresholds: no dead band where the float average is exact
+    near_p = lambda x, y: abs(x - y) <= Fraction(1, 10 ** 9)   # the drop probability itself is always a float quotient
     if a < mn:
         regions.add("below min")
         out.add(False)
@@ -389,11 +397,11 @@ def red_decision(a, u, case, eps, regions):
     else:
         regions.add("between min and max")
         p = (a - mn) / (mx - mn) * mp
-    if near(u, p):
+    if near_p(u, p):
         return {True, False}
     out.add(u <= p)
     if near(a, mx) or near(a, mn):
-        out |= {True, False} if near(u, mp) else out
+        out |= {True, False} if near_p(u, mp) else out
     return out
 
 
@@ -435,7 +443,8 @@ PROP = Property(
         Facet("monitor", monitor_strategy, run_monitor, quick=400, thorough=2500,
               essential=["sample while transmitting", "sample with a queue"]),
         Facet("red", red_strategy, run_red, quick=600, thorough=4000,
-              essential=["region below min", "region between min and max", "region at or above qlimit"]),
+              essential=["region below min", "region between min and max", "region at or above qlimit",
+                         "region average exactly on a threshold"]),
     ],
     assumptions=["a tail drop is what the port counts in packets_dropped (cross-checked: a counted packet never leaves, an "
                  "uncounted one always does)", "RED draws are scripted constant (threshold level); frequencies are not judged"],
